@@ -45,6 +45,9 @@ func init() {
 			"Messages are unusual but legal now and then: empty UUID (1 in 14), the UUID of an earlier message of the case (1 in 14), nil Metadata map (Publisher input; consumed copies of FanIn), " +
 			"hand-written envelopes with \"uuid\":\"\", null payload, {} or null metadata (valid) and with uuid/payload/metadata left out or \"uuid\":null (class handmade-partial: may be refused like a non-envelope or forwarded exactly as written, nothing invented); " +
 			"destination calls are attributed to consumed copies through a context tag, so identities need not be unique. " +
+			"Stage 1 of every Forwarder case (serial and concurrent; file outbox.go) has a failing outbox: the publisher wrapped by forwarder.Publisher refuses 0 (11 in 20), 1, 2 or 3 calls per Publish batch (error 60%, context.Canceled 25%, panic 15%), after which the caller publishes the same messages again and is accepted, or (3 in 10) has given up (the batch never reaches the forwarder topic; at least one batch per case is accepted); " +
+			"serial cases use two forwarder.Publisher instances on one outbox 3 in 10 times. Judged per Publish call, whatever was refused before it: exactly one outbox call on the forwarder topic carrying exactly that call's envelopes, each naming the call's destination topic (publisher-envelope), an error or the panic comes back when the outbox refused (publisher-error-swallowed), nil when it accepted (publisher-envelope); " +
+			"the envelopes of the accepted calls are the stream of stage 2, expected to be forwarded with the value the message had before its first Publish. " +
 			"Cases 2000.. (quick: 640) / 160000.. (thorough: 25600) are the several-in-flight classes concurrent/<component> (component rotates with the index): every source topic is delivered by 2-4 deliverers at once (a prefetching subscriber; each still redelivers its own message after a Nack) " +
 			"and the destination reads its arguments late: its calls (Forwarder, FanIn, Requeuer: a gated publisher in front of the recording one; FanIn 1 in 3 and FanOut: hook router.handle.before_publish) are held until every active deliverer's message waits there or the process is quiescent, " +
 			"then all or a random subset is released; the concurrent Forwarder class also publishes stage 1 from 2-3 goroutines through one forwarder.Publisher with a gated outbox (60% when >=2 destination topics). " +
@@ -55,6 +58,7 @@ func init() {
 			"a subscription that was subscribed before the message was handed to the FanOut and stays to the end receives exactly that many (fanout-missing, decided by quiescence). Non-trivial: a message was relayed, a subscription stayed, and a subscription left while a later one of its topic existed. " +
 			"The last 800 (quick) / 32000 (thorough) cases are the classes gosource/requeuer, gosource/fanin, gosource/forwarder (component rotates with the index): the relay consumes from a REAL source - a GoChannel (OutputChannelBuffer 0/1/4/64, Persistent 3 in 10, BlockPublishUntilSubscriberAck 4 in 10), or (4 in 10) a FanOut fed by such a GoChannel, started before or after the relay subscribed to it, with 0-2 further workers on the relay's topics that Nack 5 in 10 of their messages once or twice and (half of the workers) edit their copy before the Nack (new metadata keys, another UUID, another payload slice) - " +
 			"and relays to the scripted destination. 3-10 messages as in the component's serial class (Requeuer: every kind of existing counter, decoy keys, topic from const/metadata/uuid, Delay 0 (3 in 8) or 1us/20us/300us/1ms/2ms - with a Delay the handler waits on the consumed message's context too -, own/external router; FanIn: 1-3 source topics; Forwarder: stage 1 through forwarder.Publisher decorating the source, default/custom topic, 0-2 pass-through middlewares plus (35 in 100) one middleware that honours the consumed message's context (returns its error when it has ended), own/external router, 0-2 malformed envelopes when AckWhenCannotUnwrap), published by 1-2 goroutines in Publish calls of 1-3 messages, part of the stream before the relay subscribed when the source is persistent; " +
+			"gosource/forwarder: the publisher of the forwarder topic refuses the first 1 (5 in 20) or 2 (2 in 20) forwarder.Publisher calls that end with a given message (nothing of a refused call enters the source), the publishing goroutine repeats the call until it is accepted - every message must still produce exactly its planned destination calls (duplicate-relay, invented, not-relayed); " +
 			"every message has a destination plan 'k refused calls (error, context.Canceled, panic), then accepted', k = 0 (3 in 10), 1 (3 in 10), 2, 3, 4, 5-7; in 3 of 10 cases the destination also honours the context of the message it is given (all relays hand on the consumed message's context): a call whose message comes with an ended context is refused with that context's error, outside the plan. " +
 			"A pass-through subscriber decorator between the source and the relay counts the copies of every message the relay consumed. The case runs until the process is quiescent; so that an endless Nack/redelivery loop becomes quiescent too, the decorator acknowledges further copies of a message itself once the relay has consumed 20 more copies of it than it made destination calls for it, and the context-honouring destination stops refusing a message after 20 refusals (both are reported as runaway-redelivery). Judged: every destination call of a message (refused or accepted, whatever the number of redeliveries before it) carries the computed topic and exactly the value published to the source, the Requeuer's counter raised by exactly one (dest-topic/-uuid/-payload/-metadata, retries); " +
 			"a refused call is followed by another one - the real source gives a Nacked message again (no-redelivery-after-failure), none follows the accepted one (duplicate-relay), a message produces a call at all (not-relayed), nothing else reaches the destination (invented, non-envelope-forwarded); with a blocking GoChannel source no destination call of a message happens after the source's Publish for it returned (ack-before-accept), and that Publish returns (unsettled); every copy the relay consumed before anybody stopped it produced a destination call (consumed-not-relayed), and a finite plan ends with the accepted call whatever the relay's handlers and the destination read from the message's context (runaway-redelivery); " +
@@ -75,6 +79,8 @@ func init() {
 			"gosource/*: messages the relay would Nack for ever by design (no destination topic computable; a non-envelope with AckWhenCannotUnwrap=false) are not generated, a GoChannel redelivers them without end; identity travels in metadata key c17-id (for the Forwarder: of the enveloped message)",
 			"gosource/*: 'the relay Nacked the consumed copy' is observed as the redelivery GoChannel documents for a Nack, 'acknowledged' as the return of a Publish with BlockPublishUntilSubscriberAck (direct GoChannel source, messages published after the relay subscribed); the source Pub/Sub is part of the judged chain: a message must arrive as the statement says relative to what was published to the source",
 			"gosource/*: a message's context does not end while a consumed copy of it is being handled and nobody closes the subscription (message.Subscriber: the context is cancelled when the message is settled or the subscriber closes); the context-honouring Requeuer (Delay > 0), middleware and destination therefore never refuse on an unchanged chain; a destination call refused because of an ended context is not counted against the message's plan and is by itself no violation (the destination failed, the copy was Nacked) - only the loop that never ends is",
+			"stage 1 with a failing outbox: outbox calls are paired with Publish calls through the destination topic named in the call's last envelope (one publishing goroutine per destination topic in the concurrent class), read with the harness's own decoder of the envelope format forwarder.Publisher writes; a caller retries a refused Publish with the same message values",
+			"forwarder.Publisher.Publish returning an error (or passing the panic on) when the wrapped publisher refused is the Publisher's form of 'Nack it when the destination fails'; returning nil is its form of the acknowledgement",
 			"several-in-flight FanOut cases judge ack-before-accept by counting (acked source copies of a topic < internal Publish calls entered for it), the hook only names the topic",
 		},
 		Run: run,
